@@ -900,3 +900,282 @@ Lemma placeholders_only_lemma : forall js css t,
 Proof.
   intros js css t Hc Hj. rewrite render_doc_eq_spec_lemma. unfold spec_doc1. rewrite Hc, Hj. apply one_pass_none.
 Qed.
+
+(* ================================================================================================ *)
+(* 11. what is removed: exactly the markers / placeholders of the documented grammar, leftmost-first  *)
+(* ================================================================================================ *)
+Lemma scan_skip {A} (m : str -> option (nat * A)) a : forall d, scan m (a ++ d) (length a) = scan m d 0.
+Proof. induction a as [|x a IH]; intro d; [reflexivity|]. cbn [app length scan]. apply IH. Qed.
+
+Lemma scan_parts {A} (m : str -> option (nat * A)) (P : str -> A -> Prop) :
+  (forall s n a, m s = Some (n, a) -> exists span rest, s = span ++ rest /\ length span = n /\ P span a) ->
+  (forall span a rest, P span a -> exists k, m (span ++ rest) = Some (S k, a)) ->
+  forall d, parts_of P d (scan m d 0).
+Proof.
+  intros Hsound Hcompl d.
+  assert (G : forall n d, length d <= n -> parts_of P d (scan m d 0)).
+  { induction n as [|n IH]; intros [|c s'] Hlen; try (cbn [scan]; apply po_nil); [simpl in Hlen; lia|].
+    simpl in Hlen. cbn [scan].
+    destruct (m (c :: s')) as [[[|k] a]|] eqn:E.
+    - apply po_sym; [|apply IH; lia].
+      intros span a' rest HP HE. destruct (Hcompl span a' rest HP) as (k & Hk). rewrite <- HE in Hk. congruence.
+    - destruct (Hsound _ _ _ E) as (span & rest & HE & Hl & HP).
+      destruct span as [|x span']; [discriminate Hl|]. cbn [app] in HE. inversion HE; subst x s'.
+      cbn [length] in Hl. inversion Hl; subst k. rewrite scan_skip.
+      change (c :: span' ++ rest) with ((c :: span') ++ rest). apply po_tok; [exact HP|].
+      apply IH. rewrite app_length in Hlen. lia.
+    - apply po_sym; [|apply IH; lia].
+      intros span a' rest HP HE. destruct (Hcompl span a' rest HP) as (k & Hk). rewrite <- HE in Hk. congruence. }
+  apply (G (length d)). lia.
+Qed.
+
+(* ---- span_len ---- *)
+Lemma span_len_le p s : span_len p s <= length s.
+Proof. induction s as [|c s IH]; simpl; [lia|]. destruct (p c); simpl; lia. Qed.
+
+Lemma span_len_forall p s : Forall (fun c => p c = true) (firstn (span_len p s) s).
+Proof. induction s as [|c s IH]; simpl; [constructor|]. destruct (p c) eqn:E; simpl; constructor; auto. Qed.
+
+Lemma span_len_split p s :
+  s = firstn (span_len p s) s ++ skipn (span_len p s) s /\ length (firstn (span_len p s) s) = span_len p s.
+Proof. split; [symmetry; apply firstn_skipn | apply firstn_length_le, span_len_le]. Qed.
+
+(* a run followed by a symbol outside the class (or by nothing) is found in full *)
+Lemma span_len_app p w rest :
+  Forall (fun c => p c = true) w -> match rest with [] => True | c :: _ => p c = false end ->
+  span_len p (w ++ rest) = length w.
+Proof.
+  induction 1 as [|c w Hc Hw IH]; intro Hr; simpl.
+  - destruct rest as [|c r]; simpl; [reflexivity|]. simpl in Hr. now rewrite Hr.
+  - rewrite Hc. f_equal. now apply IH.
+Qed.
+
+Lemma blank_of_span s n : n = span_len is_bspace s -> Nat.eqb n 0 = false -> blank (firstn n s).
+Proof.
+  intros -> H. apply Nat.eqb_neq in H. split; [|apply span_len_forall].
+  intro E. apply (f_equal (@length N)) in E. rewrite (proj2 (span_len_split is_bspace s)) in E. simpl in E. lia.
+Qed.
+
+Lemma lit_app p r : lit p (p ++ r) = Some r.
+Proof.
+  unfold lit. assert (H : starts_with p (p ++ r) = true).
+  { induction p as [|x p IH]; simpl; [reflexivity|]. now rewrite N.eqb_refl, IH. }
+  rewrite H. now rewrite skipn_len_app.
+Qed.
+
+(* ---- markers ---- *)
+Lemma match_marker_sound s n data :
+  match_marker s = Some (n, data) -> exists span rest, s = span ++ rest /\ length span = n /\ is_marker span data.
+Proof.
+  unfold match_marker.
+  change (s2n "<!--") with MK_OPEN. change (s2n "_RENDERED") with MK_WORD. change (s2n "-->") with MK_CLOSE.
+  destruct (lit MK_OPEN s) as [s1|] eqn:E1; [|discriminate]. apply lit_some in E1.
+  set (w1 := span_len is_bspace s1). destruct (Nat.eqb w1 0) eqn:Z1; [discriminate|].
+  destruct (lit MK_WORD (skipn w1 s1)) as [s2|] eqn:E2; [|discriminate]. apply lit_some in E2.
+  set (w2 := span_len is_bspace s2). destruct (Nat.eqb w2 0) eqn:Z2; [discriminate|].
+  set (s3 := skipn w2 s2). set (dl := span_len is_data s3). destruct (Nat.eqb dl 0) eqn:Z3; [discriminate|].
+  set (s4 := skipn dl s3). set (w3 := span_len is_bspace s4). destruct (Nat.eqb w3 0) eqn:Z4; [discriminate|].
+  destruct (lit MK_CLOSE (skipn w3 s4)) as [s5|] eqn:E5; [|discriminate]. apply lit_some in E5.
+  intro H. inversion H; subst n data. clear H.
+  destruct (span_len_split is_bspace s1) as (P1 & L1). fold w1 in P1, L1.
+  destruct (span_len_split is_bspace s2) as (P2 & L2). fold w2 in P2, L2. fold s3 in P2.
+  destruct (span_len_split is_data s3) as (P3 & L3). fold dl in P3, L3. fold s4 in P3.
+  destruct (span_len_split is_bspace s4) as (P4 & L4). fold w3 in P4, L4.
+  exists (MK_OPEN ++ firstn w1 s1 ++ MK_WORD ++ firstn w2 s2 ++ firstn dl s3 ++ firstn w3 s4 ++ MK_CLOSE), s5.
+  split; [|split].
+  - rewrite E1. rewrite P1 at 1. rewrite E2. rewrite P2 at 1. rewrite P3 at 1. rewrite P4 at 1. rewrite E5.
+    now rewrite <- !app_assoc.
+  - rewrite !app_length, L1, L2, L3, L4. cbn [length MK_OPEN MK_WORD MK_CLOSE]. lia.
+  - exists (firstn w1 s1), (firstn w2 s2), (firstn w3 s4).
+    repeat split; try (apply blank_of_span; auto; fail); try apply span_len_forall.
+    intro E. apply (f_equal (@length N)) in E. rewrite L3 in E. apply Nat.eqb_neq in Z3. simpl in E. lia.
+Qed.
+
+Lemma blank_len w : blank w -> Nat.eqb (length w) 0 = false.
+Proof. intros [H _]. destruct w; [congruence|reflexivity]. Qed.
+
+Lemma match_marker_complete span data rest :
+  is_marker span data -> match_marker (span ++ rest) = Some (length span, data).
+Proof.
+  intros (w1 & w2 & w3 & B1 & B2 & B3 & Hd & Fd & ->).
+  unfold match_marker.
+  change (s2n "<!--") with MK_OPEN. change (s2n "_RENDERED") with MK_WORD. change (s2n "-->") with MK_CLOSE.
+  cbv zeta. rewrite <- !app_assoc. rewrite lit_app.
+  rewrite (span_len_app is_bspace w1) by (try reflexivity; apply B1).
+  rewrite (blank_len w1 B1), skipn_len_app, lit_app.
+  assert (Hd1 : match data ++ w3 ++ MK_CLOSE ++ rest with [] => True | c :: _ => is_bspace c = false end).
+  { destruct data as [|c data]; [congruence|]. inversion Fd as [|? ? Hc _]; subst. cbn [app].
+    unfold is_data in Hc. apply andb_true_iff in Hc as [Hc _]. now apply negb_true_iff in Hc. }
+  rewrite (span_len_app is_bspace w2) by (try exact Hd1; apply B2).
+  rewrite (blank_len w2 B2), skipn_len_app.
+  assert (Hw3 : match w3 ++ MK_CLOSE ++ rest with [] => True | c :: _ => is_data c = false end).
+  { destruct B3 as [Hn Hf]. destruct w3 as [|c w3]; [congruence|]. inversion Hf as [|? ? Hc _]; subst. cbn [app].
+    unfold is_data. now rewrite Hc. }
+  rewrite (span_len_app is_data data) by (try exact Hw3; exact Fd).
+  assert (Nat.eqb (length data) 0 = false) as -> by (destruct data; [congruence|reflexivity]).
+  rewrite skipn_len_app, firstn_len_app.
+  rewrite (span_len_app is_bspace w3) by (try reflexivity; apply B3).
+  rewrite (blank_len w3 B3), skipn_len_app, lit_app.
+  f_equal. f_equal. rewrite !app_length. cbn [length MK_OPEN MK_WORD MK_CLOSE]. lia.
+Qed.
+
+Lemma is_marker_nonempty span data : is_marker span data -> exists k, length span = S k.
+Proof. intros (w1 & w2 & w3 & _ & _ & _ & _ & _ & ->). cbn [MK_OPEN app length]. eauto. Qed.
+
+Lemma markers_lemma : forall d,
+  parts_of is_marker d (scan match_marker d 0).
+Proof.
+  apply scan_parts.
+  - apply match_marker_sound.
+  - intros span a rest H. destruct (is_marker_nonempty _ _ H) as (k & Hk).
+    exists k. rewrite <- Hk. now apply match_marker_complete.
+Qed.
+
+(* ---- placeholders ---- *)
+Lemma attr_group_sound name s s' : attr_group name s = Some s' -> exists a, is_attr name a /\ s = a ++ s'.
+Proof.
+  unfold attr_group. destruct (lit name s) as [s1|] eqn:E1; [|discriminate]. apply lit_some in E1.
+  unfold six_word. destruct (Nat.eqb (length (firstn 6 s1)) 6 && forallb is_word (firstn 6 s1)) eqn:E2; [|discriminate].
+  apply andb_true_iff in E2 as [L W]. apply Nat.eqb_eq in L.
+  change (s2n "=""""") with EQ_QQ. intro E3. apply lit_some in E3.
+  exists (name ++ firstn 6 s1 ++ EQ_QQ). split.
+  - exists (firstn 6 s1). repeat split; [exact L|].
+    apply Forall_forall. intros x Hx. rewrite forallb_forall in W. now apply W.
+  - rewrite E1. rewrite <- (firstn_skipn 6 s1) at 1. rewrite E3. now rewrite <- !app_assoc.
+Qed.
+
+Lemma attr_group_complete name a rest : is_attr name a -> attr_group name (a ++ rest) = Some rest.
+Proof.
+  intros (w & L & W & ->). unfold attr_group. rewrite <- !app_assoc, lit_app. unfold six_word.
+  assert (F : firstn 6 (w ++ EQ_QQ ++ rest) = w) by (rewrite <- L; apply firstn_len_app).
+  assert (S6 : skipn 6 (w ++ EQ_QQ ++ rest) = EQ_QQ ++ rest) by (rewrite <- L; apply skipn_len_app).
+  rewrite F, S6, L. cbn [Nat.eqb andb].
+  assert (forallb is_word w = true) as -> by (apply forallb_forall; intros x Hx; rewrite Forall_forall in W; now apply W).
+  change (s2n "=""""") with EQ_QQ. apply lit_app.
+Qed.
+
+Lemma is_attr_len name a : is_attr name a -> 1 <= length a.
+Proof. intros (w & L & _ & ->). rewrite !app_length, L. lia. Qed.
+
+Lemma id_groups_sound : forall fuel s, exists ids, is_attrs COMP_ID ids /\ s = ids ++ id_groups fuel s.
+Proof.
+  induction fuel as [|f IH]; intro s; cbn [id_groups].
+  - exists []. split; [constructor|reflexivity].
+  - destruct (attr_group COMP_ID s) as [s'|] eqn:E.
+    + apply attr_group_sound in E as (a & Ha & ->). destruct (IH s') as (ids & Hi & Hs).
+      exists (a ++ ids). split; [now constructor|]. rewrite <- app_assoc. now rewrite <- Hs.
+    + exists []. split; [constructor|reflexivity].
+Qed.
+
+Lemma id_groups_complete ids : is_attrs COMP_ID ids -> forall fuel tail,
+  length ids <= fuel -> attr_group COMP_ID tail = None -> id_groups fuel (ids ++ tail) = tail.
+Proof.
+  induction 1 as [|a b Ha Hb IH]; intros fuel tail Hf Hn.
+  - destruct fuel; cbn [id_groups app]; [reflexivity|]. now rewrite Hn.
+  - pose proof (is_attr_len _ _ Ha) as La. rewrite app_length in Hf.
+    destruct fuel as [|f]; [lia|]. cbn [id_groups]. rewrite <- app_assoc, attr_group_complete by exact Ha.
+    apply IH; [lia|exact Hn].
+Qed.
+
+Lemma opt_attr_sound s : exists o, (o = [] \/ is_attr CSS_ID o) /\ s = o ++ opt (attr_group CSS_ID) s.
+Proof.
+  unfold opt. destruct (attr_group CSS_ID s) as [s'|] eqn:E.
+  - apply attr_group_sound in E as (a & Ha & ->). exists a. auto.
+  - exists []. auto.
+Qed.
+
+Lemma match_ph_sound s n k :
+  match_ph s = Some (n, k) -> exists span rest, s = span ++ rest /\ length span = n /\ is_placeholder span k.
+Proof.
+  unfold match_ph. destruct (lit CSS_OPEN s) as [s1|] eqn:E1.
+  - apply lit_some in E1.
+    destruct (opt_attr_sound s1) as (o & Ho & Hs1). set (s2 := opt (attr_group CSS_ID) s1) in *.
+    destruct (id_groups_sound (length s2) s2) as (ids & Hi & Hs2). set (s3 := id_groups (length s2) s2) in *.
+    assert (exists sl, (sl = [] \/ sl = [47%N]) /\ s3 = sl ++ opt (lit (s2n "/")) s3) as (sl & Hsl & Hs3).
+    { unfold opt. destruct (lit (s2n "/") s3) as [s4|] eqn:E; [apply lit_some in E; exists [47%N]; auto | exists []; auto]. }
+    set (s4 := opt (lit (s2n "/")) s3) in *.
+    destruct (lit (s2n ">") s4) as [s5|] eqn:E5; [|discriminate]. apply lit_some in E5.
+    intro H. inversion H; subst n k. clear H.
+    assert (Es : s = (CSS_OPEN ++ o ++ ids ++ sl ++ [GT]) ++ s5).
+    { rewrite E1. rewrite Hs1 at 1. rewrite Hs2 at 1. rewrite Hs3 at 1. rewrite E5. now rewrite <- !app_assoc. }
+    exists (CSS_OPEN ++ o ++ ids ++ sl ++ [GT]), s5. split; [exact Es|]. split.
+    + rewrite Es at 1. rewrite (app_length _ s5). lia.
+    + exists o, ids. repeat split; auto. exists sl. auto.
+  - destruct (lit JS_OPEN s) as [s1|] eqn:E1'; [|discriminate]. apply lit_some in E1'.
+    destruct (opt_attr_sound s1) as (o & Ho & Hs1). set (s2 := opt (attr_group CSS_ID) s1) in *.
+    destruct (id_groups_sound (length s2) s2) as (ids & Hi & Hs2). set (s3 := id_groups (length s2) s2) in *.
+    change (s2n "></script>") with JS_CLOSE.
+    destruct (lit JS_CLOSE s3) as [s5|] eqn:E5; [|discriminate]. apply lit_some in E5.
+    intro H. inversion H; subst n k. clear H.
+    assert (Es : s = (JS_OPEN ++ o ++ ids ++ JS_CLOSE) ++ s5).
+    { rewrite E1'. rewrite Hs1 at 1. rewrite Hs2 at 1. rewrite E5. now rewrite <- !app_assoc. }
+    exists (JS_OPEN ++ o ++ ids ++ JS_CLOSE), s5. split; [exact Es|]. split.
+    + rewrite Es at 1. rewrite (app_length _ s5). lia.
+    + exists o, ids. repeat split; auto.
+Qed.
+
+(* what follows the attribute groups of a placeholder starts no further group *)
+Lemma no_group_slash name x rest : name = CSS_ID \/ name = COMP_ID -> x = 47%N \/ x = 62%N -> attr_group name (x :: rest) = None.
+Proof. intros [-> | ->] [-> | ->]; reflexivity. Qed.
+
+Lemma css_group_not_id a rest : is_attr COMP_ID a -> attr_group CSS_ID (a ++ rest) = None.
+Proof. intros (w & _ & _ & ->). reflexivity. Qed.
+
+Lemma opt_attr_complete o ids tail :
+  (o = [] \/ is_attr CSS_ID o) -> is_attrs COMP_ID ids -> (exists x r, tail = x :: r /\ (x = 47%N \/ x = 62%N)) ->
+  opt (attr_group CSS_ID) (o ++ ids ++ tail) = ids ++ tail.
+Proof.
+  intros [-> | Ho] Hi (x & r & -> & Hx); unfold opt.
+  - cbn [app]. destruct Hi as [|a b Ha Hb].
+    + cbn [app]. now rewrite no_group_slash by auto.
+    + rewrite <- app_assoc. now rewrite css_group_not_id.
+  - now rewrite attr_group_complete.
+Qed.
+
+Lemma match_ph_complete span k rest : is_placeholder span k -> match_ph (span ++ rest) = Some (length span, k).
+Proof.
+  intros (o & ids & Ho & Hi & Hk). destruct k.
+  - destruct Hk as (sl & Hsl & ->). unfold match_ph. rewrite <- !app_assoc, lit_app.
+    assert (T : exists x r, sl ++ [GT] ++ rest = x :: r /\ (x = 47%N \/ x = 62%N)).
+    { destruct Hsl as [-> | ->]; cbn [app]; eauto. }
+    rewrite (opt_attr_complete o ids _ Ho Hi T).
+    rewrite id_groups_complete; [|exact Hi|rewrite app_length; lia|].
+    2:{ destruct T as (x & r & -> & Hx). apply no_group_slash; auto. }
+    assert (E4 : opt (lit (s2n "/")) (sl ++ [GT] ++ rest) = [GT] ++ rest).
+    { destruct Hsl as [-> | ->]; reflexivity. }
+    rewrite E4. change (s2n ">") with [GT]. rewrite lit_app.
+    f_equal. f_equal. rewrite !app_length. cbn [length]. lia.
+  - subst span. unfold match_ph. rewrite <- !app_assoc.
+    assert (lit CSS_OPEN (JS_OPEN ++ o ++ ids ++ JS_CLOSE ++ rest) = None) as -> by reflexivity.
+    rewrite lit_app.
+    assert (T : exists x r, JS_CLOSE ++ rest = x :: r /\ (x = 47%N \/ x = 62%N)) by (cbn [JS_CLOSE app]; eauto).
+    rewrite (opt_attr_complete o ids _ Ho Hi T).
+    rewrite id_groups_complete; [|exact Hi|rewrite app_length; lia|].
+    2:{ destruct T as (x & r & -> & Hx). apply no_group_slash; auto. }
+    change (s2n "></script>") with JS_CLOSE. rewrite lit_app.
+    f_equal. f_equal. rewrite !app_length. cbn [length]. lia.
+Qed.
+
+Lemma is_placeholder_nonempty span k : is_placeholder span k -> exists n, length span = S n.
+Proof.
+  intros (o & ids & _ & _ & Hk). destruct k.
+  - destruct Hk as (sl & _ & ->). cbn [CSS_OPEN s2n]. simpl. eauto.
+  - subst span. simpl. eauto.
+Qed.
+
+Lemma placeholders_lemma : forall t, parts_of is_placeholder t (ph_tokens t).
+Proof.
+  apply scan_parts.
+  - apply match_ph_sound.
+  - intros span a rest H. destruct (is_placeholder_nonempty _ _ H) as (n & Hn).
+    exists n. rewrite <- Hn. now apply match_ph_complete.
+Qed.
+
+(* the kept symbols / the harvested data of a cut *)
+Lemma removed_are_markers_lemma : forall d,
+  exists l, parts_of is_marker d l /\ erase_markers d = lits l /\ harvest d = toks l.
+Proof. intro d. exists (scan match_marker d 0). split; [apply markers_lemma|split; reflexivity]. Qed.
+
+Lemma removed_are_placeholders_lemma : forall t,
+  exists l, parts_of is_placeholder t l /\ erase_ph t = lits l /\ ph_tokens t = l.
+Proof. intro t. exists (ph_tokens t). split; [apply placeholders_lemma|split; reflexivity]. Qed.
